@@ -179,15 +179,18 @@ def rand_identifier(rng):
     return "x"
 
 
-def end_to_end(pos, s, idx):
+STR_FLAVOUR_POSITIONS = ["meta_alias", "annotated_alias", "config_alias", "forbid_extra_keys", "typeddict_key", "discriminator_field", "alias_kwargs_serializer"]
+
+
+def end_to_end(pos, s, idx, flavour="plain"):
     """returns None when the property holds, else a description"""
-    bad = _end_to_end(pos, s, idx)
+    bad = _end_to_end(pos, s, idx, flavour)
     if os.environ.pop(SENTINEL, None) is not None:
         return "SENTINEL FIRED: schema-supplied string was executed" + (f" ({bad})" if bad else "")
     return bad
 
 
-def _end_to_end(pos, s, idx):
+def _end_to_end(pos, s, idx, flavour="plain"):
     from mashumaro import DataClassDictMixin, field_options
     from mashumaro.codecs.basic import BasicDecoder, BasicEncoder
     from mashumaro.config import BaseConfig
@@ -195,6 +198,13 @@ def _end_to_end(pos, s, idx):
 
     os.environ.pop(SENTINEL, None)
     name = f"C16_{idx}"
+    sk = s      # the string as the SCHEMA supplies it
+    if flavour == "strenum":
+        # a member of a str-based enum (the usual way to keep key constants): a str whose repr is not a literal
+        import enum
+
+        sk = enum.Enum(name + "_K", {"M": s}, type=str).M
+        assert isinstance(sk, str) and sk == s
 
     def mk(ann, ns_extra=None, cfg=None):
         ns = {"__annotations__": ann, **(ns_extra or {})}
@@ -208,13 +218,13 @@ def _end_to_end(pos, s, idx):
         if pos in ("meta_alias", "annotated_alias", "config_alias", "forbid_extra_keys"):
             cfg = {"serialize_by_alias": True}
             if pos == "meta_alias":
-                cls = mk({"a": int}, {"a": dataclasses.field(metadata=field_options(alias=s))}, cfg)
+                cls = mk({"a": int}, {"a": dataclasses.field(metadata=field_options(alias=sk))}, cfg)
             elif pos == "annotated_alias":
-                cls = mk({"a": typing.Annotated[int, Alias(s)]}, None, cfg)
+                cls = mk({"a": typing.Annotated[int, Alias(sk)]}, None, cfg)
             elif pos == "config_alias":
-                cls = mk({"a": int}, None, {**cfg, "aliases": {"a": s}})
+                cls = mk({"a": int}, None, {**cfg, "aliases": {"a": sk}})
             else:
-                cls = mk({"a": int}, {"a": dataclasses.field(metadata=field_options(alias=s))}, {**cfg, "forbid_extra_keys": True})
+                cls = mk({"a": int}, {"a": dataclasses.field(metadata=field_options(alias=sk))}, {**cfg, "forbid_extra_keys": True})
             d = cls(5).to_dict()
             if list(d.keys()) != [s]:
                 return f"to_dict key is {list(d.keys())!r}, expected [{s!r}]"
@@ -232,7 +242,7 @@ def _end_to_end(pos, s, idx):
         elif pos == "alias_kwargs_serializer":
             # the serializer that fills the result key by key (a nullable converted member, omit_none, omit_default)
             for cfg in ({"serialize_by_alias": True}, {"serialize_by_alias": True, "omit_none": True}, {"serialize_by_alias": True, "omit_default": True}):
-                cls = mk({"a": int, "y": typing.Optional[bytes]}, {"a": dataclasses.field(metadata=field_options(alias=s)), "y": None}, cfg)
+                cls = mk({"a": int, "y": typing.Optional[bytes]}, {"a": dataclasses.field(metadata=field_options(alias=sk)), "y": None}, cfg)
                 d = cls(5).to_dict()
                 exp = {s: 5} if (cfg.get("omit_none") or cfg.get("omit_default")) else {s: 5, "y": None}
                 if s != "y" and (d != exp or list(d.keys())[0] != s):
@@ -240,18 +250,18 @@ def _end_to_end(pos, s, idx):
                 if s != "y" and cls.from_dict(d) != cls(5):
                     return f"round trip of {d!r} ({cfg})"
         elif pos == "typeddict_key":
-            td = typing.TypedDict("TD16", {s: int, "other": typing.NotRequired[int]})
+            td = typing.TypedDict("TD16", {sk: int, "other": typing.NotRequired[int]})
             r = BasicEncoder(td).encode({s: 3})
             if r != {s: 3}:
                 return f"TypedDict encoded as {r!r}"
             r = BasicDecoder(td).decode({s: "4"})
             if r != {s: 4}:
                 return f"TypedDict decoded as {r!r}"
-            td2 = typing.TypedDict("TD16b", {"k": int, s: typing.NotRequired[int]})
+            td2 = typing.TypedDict("TD16b", {"k": int, sk: typing.NotRequired[int]})
             if BasicDecoder(td2).decode({"k": 1, s: "2"}) != ({"k": 1, s: 2} if s != "k" else {"k": 2}):
                 return "optional TypedDict key not handled as data"
         elif pos == "discriminator_field":
-            base = mk({}, None, {"discriminator": Discriminator(field=s, include_subtypes=True)})
+            base = mk({}, None, {"discriminator": Discriminator(field=sk, include_subtypes=True)})
             sub = type(name + "_S", (base,), {"__annotations__": {"x": int}, s: "tagS"} if s.isidentifier() or True else {})
             sub.__module__ = __name__
             globals()[name + "_S"] = sub
@@ -358,12 +368,16 @@ def e2e_cases(ctx, n):
     rand = [(rng.choice(POSITIONS), rand_string(rng)) for _ in range(n)]
     fixed += [(p, s) for p in ID_POSITIONS for s in ID_FIXED]
     rand += [(rng.choice(ID_POSITIONS), rand_identifier(rng)) for _ in range(max(20, n // 8))]
-    for pos, s in fixed + rand:
+    flav = [(p, s, "strenum") for p in STR_FLAVOUR_POSITIONS for s in ("foo", "it's", "", "a\\b")]
+    flav += [(p, s, "strenum") for p, s in rand if p in STR_FLAVOUR_POSITIONS and rng.random() < 0.2]
+    for pos, s, fl in [(p, s, "plain") for p, s in fixed + rand] + flav:
         case = {"position": pos, "string": s}
-        if pos == "discriminator_field" and (not s or "\x00" in s):
-            continue   # an empty / NUL attribute name cannot be set on a class: not a mashumaro matter
-        ctx.count(case, not (s.isascii() and s.replace("_", "a").isalnum()), kind=f"pos:{pos}")
-        bad = end_to_end(pos, s, ctx.evaluations)
+        if fl != "plain":
+            case["flavour"] = fl
+        if pos == "discriminator_field" and "\x00" in s:
+            continue   # a NUL in an attribute name cannot be put into a class namespace: not a mashumaro matter
+        ctx.count(case, not (s.isascii() and s.replace("_", "a").isalnum()), kind=f"pos:{pos}" + ("" if fl == "plain" else ":" + fl))
+        bad = end_to_end(pos, s, ctx.evaluations, fl)
         if bad:
             ctx.violation(case, {"observed": bad}, "class builds and the key/value used is exactly s; sentinel never fires", "schema-supplied string not treated as data",
                           lambda f: f["id"] == "K14" and s == "" and pos in ("meta_alias", "annotated_alias", "config_alias", "forbid_extra_keys"))
@@ -386,7 +400,7 @@ def run(ctx):
 def replay(ctx, body):
     c = body["case"]
     if "position" in c:
-        bad = end_to_end(c["position"], c["string"], 0)
+        bad = end_to_end(c["position"], c["string"], 0, c.get("flavour", "plain"))
         ctx.count(c, True)
         if bad:
             ctx.violation(c, {"observed": bad}, "class builds and the key/value used is exactly s", "schema-supplied string not treated as data", lambda f: False)
